@@ -650,10 +650,12 @@ func (vm *VM) startGoroutine() bool {
 	nvm := create(vm.env)
 	vm.pc++
 	off := vm.fn.Body[vm.pc]
-	copy(nvm.regs.int, vm.regs.int[vm.fp[0]+Addr(off.Op):vm.fp[0]+127])
-	copy(nvm.regs.float, vm.regs.float[vm.fp[1]+Addr(off.A):vm.fp[1]+127])
-	copy(nvm.regs.string, vm.regs.string[vm.fp[2]+Addr(off.B):vm.fp[2]+127])
-	copy(nvm.regs.general, vm.regs.general[vm.fp[3]+Addr(off.C):vm.fp[3]+127])
+	// The register file may end before the 127 registers above the frame
+	// pointer: copy only what exists.
+	copy(nvm.regs.int, vm.regs.int[vm.fp[0]+Addr(off.Op):min(vm.fp[0]+127, vm.st[0])])
+	copy(nvm.regs.float, vm.regs.float[vm.fp[1]+Addr(off.A):min(vm.fp[1]+127, vm.st[1])])
+	copy(nvm.regs.string, vm.regs.string[vm.fp[2]+Addr(off.B):min(vm.fp[2]+127, vm.st[2])])
+	copy(nvm.regs.general, vm.regs.general[vm.fp[3]+Addr(off.C):min(vm.fp[3]+127, vm.st[3])])
 	go nvm.runFunc(fn, vars)
 	vm.pc++
 	return false
